@@ -48,7 +48,19 @@ def run_impl(case):
         return vf.try_impl(lambda: X.from_ticks(case["t"]).ticks)
     if k == "from_tuple":
         def f():
-            v = X.from_tuple(bt.TimeValueTuple(case["w"], case["f"]))
+            import numpy as np
+            w, fr = case["w"], case["f"]
+            # the fields as NumPy integers (as read from a structured array) when they fit the NumPy type
+            nt = case.get("np")
+            if nt in ("w", "both") and -(1 << 63) <= w < (1 << 63):
+                w = np.int64(w)
+            if nt in ("f", "both") and 0 <= fr < (1 << 64):
+                fr = np.uint64(fr)
+            if nt == "w32" and -(1 << 31) <= w < (1 << 31):
+                w = np.int32(w)
+            v = X.from_tuple(bt.TimeValueTuple(w, fr))
+            if type(v.ticks) is not int:
+                raise RuntimeError("ticks is a %s" % type(v.ticks).__name__)
             return v.ticks
         return vf.try_impl(f)
     if k == "to_tuple":
@@ -177,7 +189,7 @@ def _cases_for_values(vals, rng, heavy):
                 cases.append({"k": "to_tuple", "dt": dt, "t": t})
         cases.append({"k": "from_offset", "t": t})
         w, f = t >> 64, t & (T64 - 1)
-        cases.append({"k": "from_tuple", "dt": rng.random() < 0.5, "w": w, "f": f})
+        cases.append({"k": "from_tuple", "dt": rng.random() < 0.5, "w": w, "f": f, "np": rng.choice([None, None, "w", "f", "both", "w32"])})
         if heavy and MIN128 <= t <= MAX128:
             cases.append({"k": "pickle", "dt": rng.random() < 0.5, "t": t,
                           "proto": rng.choice([0, 1, 2, 3, 4, 5, "deepcopy", "copy"])})
